@@ -319,6 +319,23 @@ var c02Positions = map[string]string{
 	// as a pattern: inside a pattern `+` joins texts (1 + 2 is /12/), whatever the optimiser thinks
 	"pat":  "string($1) =~ (E) {\n    r = 1\n  } else {\n    r = 2\n  }",
 	"patc": "string($1) =~ /^/ + (E) {\n    r = 1\n  } else {\n    r = 2\n  }",
+	// in a long, flat program: a hundred and twenty pattern blocks, constants and matches before it
+	"many": c02ManyBlocks() + "r = E",
+}
+
+func c02ManyBlocks() string {
+	var b strings.Builder
+	for i := 0; i < 120; i++ {
+		switch i % 3 {
+		case 0:
+			fmt.Fprintf(&b, "/never%d/ {\n    r = %d\n  }\n  ", i, i)
+		case 1:
+			fmt.Fprintf(&b, "string($1) =~ /never%d/ {\n    r = %d\n  }\n  ", i, i)
+		default:
+			fmt.Fprintf(&b, "string($2) !~ /./ + /%d/ {\n    r = %d\n  }\n  ", i, i)
+		}
+	}
+	return b.String()
 }
 
 func c02Run(r *runCtx, id string, f []string) {
@@ -407,7 +424,7 @@ func init() {
 			ops := []string{"+", "-", "*", "/", "%", "^"}
 			lines := "3_0.5|0_0.0|-7_2.0|10_-2.5|1_2.25|2_0.3|5_1.0"
 			nEmitted := 0
-			posIndex := map[string]int{"cond": 0, "cmpl": 1, "cmpr": 2, "plus": 3, "else": 4, "float": 5, "int": 6, "and": 7, "neg": 8, "twice": 9, "cat": 10, "catl": 11, "streq": 12, "strcat": 13, "pat": 14, "patc": 15}
+			posIndex := map[string]int{"cond": 0, "cmpl": 1, "cmpr": 2, "plus": 3, "else": 4, "float": 5, "int": 6, "and": 7, "neg": 8, "twice": 9, "cat": 10, "catl": 11, "streq": 12, "strcat": 13, "pat": 14, "patc": 15, "many": 16}
 			emit := func(n *c02Node) {
 				o := &c02Oracle{entries: map[string]bool{}}
 				n.collectConst(o)
@@ -430,8 +447,8 @@ func init() {
 				if n.kind == 'b' {
 					nEmitted++
 					if g.thorough() || nEmitted%4 == 0 {
-						for _, pos := range []string{"cond", "cmpl", "cmpr", "plus", "else", "float", "int", "and", "neg", "twice", "cat", "catl", "streq", "strcat", "pat", "patc"} {
-							if g.thorough() || (nEmitted/4)%16 == posIndex[pos] {
+						for _, pos := range []string{"cond", "cmpl", "cmpr", "plus", "else", "float", "int", "and", "neg", "twice", "cat", "catl", "streq", "strcat", "pat", "patc", "many"} {
+							if g.thorough() || (nEmitted/4)%17 == posIndex[pos] {
 								g.emit("foldpos", pos, n.rpn(), tbl, lines)
 							}
 						}
